@@ -47,17 +47,18 @@ class Stats:
         self.hash_calls = 0
         self.failed = []  # dicts: name, model, pc
         self.witness_paths = 0  # paths on which the reachability twin (False) is violated
+        self.concrete_twins = 0  # paths re-run with real ints on their witness model
 
     def merge(self, o: "Stats"):
         for k in ("paths", "queries", "solver_s", "unknown", "obligations", "discharged", "inconclusive",
-                  "unwinding_assumptions", "concretisations", "hash_calls", "witness_paths"):
+                  "unwinding_assumptions", "concretisations", "hash_calls", "witness_paths", "concrete_twins"):
             setattr(self, k, getattr(self, k) + getattr(o, k))
         self.unsupported += o.unsupported
         self.failed += o.failed
 
     def as_dict(self):
         d = {k: getattr(self, k) for k in ("paths", "queries", "unknown", "obligations", "discharged", "inconclusive",
-                                             "unwinding_assumptions", "concretisations", "hash_calls", "witness_paths")}
+                                             "unwinding_assumptions", "concretisations", "hash_calls", "witness_paths", "concrete_twins")}
         d["solver_s"] = round(self.solver_s, 3)
         d["unsupported"] = len(self.unsupported)
         d["unsupported_reasons"] = sorted(set(self.unsupported))[:10]
@@ -197,6 +198,90 @@ class Engine:
         return out
 
 
+class ConcreteEngine:
+    """Runs the same harness function on the path's witness model with REAL ints (ConcInt): C-level reads see the
+    true value, so any silent divergence between proxy execution and real execution shows up as an obligation that
+    is false on a concrete run of the real code."""
+
+    concrete = True
+
+    def __init__(self, model, stats, timeout_ms):
+        self.model = model
+        self.stats = stats
+        self.obl = []
+        self.notes = []
+        self.shrink = []
+        self.pc = []
+        self.trace = []
+        self.work = []
+        self.fresh_n = 0
+        self.infeasible = False
+        self._solver = None
+        self.timeout_ms = timeout_ms
+
+    def ev(self, c):
+        if isinstance(c, SymBool):
+            c = c.z
+        if isinstance(c, bool):
+            return c
+        v = self.model.eval(c, model_completion=True)
+        if z3.is_true(v):
+            return True
+        if z3.is_false(v):
+            return False
+        v = z3.simplify(v)
+        if z3.is_true(v):
+            return True
+        if z3.is_false(v):
+            return False
+        raise PathAbort("concrete twin: condition not decided by the model")
+
+    def assume(self, c):
+        if c is True:
+            return
+        if not self.ev(c):
+            raise PathAbort("infeasible: concrete twin left the path")
+
+    def branch(self, cond):
+        return self.ev(cond)
+
+    def sat(self, *extra):
+        s = z3.Solver()
+        s.set("timeout", self.timeout_ms)
+        for e in extra:
+            s.add(e)
+        return str(s.check())
+
+    def _check(self, *extra):
+        s = z3.Solver()
+        s.set("timeout", self.timeout_ms)
+        for e in extra:
+            s.add(e)
+        r = str(s.check())
+        return r, (s.model() if r == "sat" else None)
+
+    def fresh(self, name, sort=None):
+        self.fresh_n += 1
+        return z3.Const(f"{name}!{self.fresh_n}", sort if sort is not None else z3.IntSort())
+
+    def oblige(self, name, phi, info=None):
+        self.obl.append((name, phi, info))
+
+    def concretise(self, x):
+        return int(x) if not isinstance(x, SymInt) else x
+
+    def model_dict(self, m):
+        return Engine.model_dict(self, m)
+
+
+class ConcInt(int):
+    """a real int that also offers `.z` (its numeral), so harness code written for proxies runs unchanged."""
+
+    @property
+    def z(self):
+        return z3.IntVal(int(self))
+
+
 ENG: Engine | None = None
 # eager mode: comparisons of SymInts branch immediately and return a real bool (needed where the result
 # is handed to C code, e.g. a numpy boolean mask).  Always sound: it only splits paths earlier.
@@ -219,7 +304,8 @@ def eng() -> Engine:
     return ENG
 
 
-def explore(fn, setup=None, max_paths=20000, timeout_ms=5000, stop_on_fail=True, twin=True, budget_s=None):
+def explore(fn, setup=None, max_paths=20000, timeout_ms=5000, stop_on_fail=True, twin=True, budget_s=None,
+            witness=False):
     """Run fn() on every feasible path.
 
     fn may call eng().assume/oblige/branch; may return a z3 Bool / SymBool / bool
@@ -253,10 +339,32 @@ def explore(fn, setup=None, max_paths=20000, timeout_ms=5000, stop_on_fail=True,
             if post is not None:
                 E.oblige("post", post)
             # reachability twin: the path itself must be satisfiable
+            wmodel = None
             if twin:
-                r, _ = E._check()
+                r, wmodel = E._check()
                 if r == "sat":
                     E.stats.witness_paths += 1
+            if witness and wmodel is not None:
+                # concrete twin of this path on its witness model (real ints through the real code)
+                CE = ConcreteEngine(wmodel, E.stats, timeout_ms)
+                ENG = CE
+                try:
+                    p2 = fn()
+                    if p2 is not None:
+                        CE.oblige("post", p2)
+                    E.stats.concrete_twins = getattr(E.stats, "concrete_twins", 0) + 1
+                    for name, phi, info in CE.obl:
+                        try:
+                            okc = CE.ev(phi)
+                        except PathAbort:
+                            continue
+                        if not okc:
+                            E.stats.failed.append(dict(name=name, model=E.model_dict(wmodel), info=info,
+                                                       decisions=list(E.trace), notes=["concrete witness twin"]))
+                except (Unsupported, PathAbort):
+                    pass
+                finally:
+                    ENG = E
             # discharge obligations: all at once first
             obl = E.obl
             E.stats.obligations += len(obl)
@@ -293,6 +401,10 @@ def explore(fn, setup=None, max_paths=20000, timeout_ms=5000, stop_on_fail=True,
             break
     ENG = None
     return E.stats
+
+
+def is_concrete():
+    return getattr(ENG, "concrete", False)
 
 
 # --------------------------------------------------------------------------- proxies
@@ -538,6 +650,32 @@ class SymInt(int):
     def bit_length(self):
         raise Unsupported("bit_length of symbolic int")
 
+    def bit_count(self):
+        raise Unsupported("bit_count of symbolic int")
+
+    def to_bytes(self, *a, **k):
+        raise Unsupported("to_bytes of symbolic int")
+
+    def __ceil__(self):
+        return self
+
+    def __floor__(self):
+        return self
+
+    def __round__(self, n=None):
+        return self
+
+    def conjugate(self):
+        return self
+
+    @property
+    def real(self):
+        return self
+
+    @property
+    def numerator(self):
+        return self
+
     # -- comparisons
     def _cmp(self, o, f):
         zo = _z(o)
@@ -584,6 +722,49 @@ class SymInt(int):
         return self.z.hash()
 
 
+def install_c_guards():
+    """C functions that read an int subclass by value would silently consume the poison.  Make the ones that return
+    small results proxy-aware (gcd with a concrete partner is modelled exactly) or loud."""
+    import math
+
+    if getattr(math, "_verif_guarded", False):
+        return
+    _gcd = math.gcd
+
+    def gcd(*args):
+        if not any(isinstance(a, SymInt) for a in args):
+            return _gcd(*args)
+        syms = [a for a in args if isinstance(a, SymInt)]
+        conc = [a for a in args if not isinstance(a, SymInt)]
+        if len(syms) != 1 or not conc:
+            raise Unsupported("gcd of symbolic ints")
+        c = abs(_gcd(*conc))
+        if c == 0:
+            return abs(syms[0])
+        x = syms[0].z
+        divs = sorted((d for d in range(1, c + 1) if c % d == 0), reverse=True)
+        if len(divs) > 64:
+            raise Unsupported("gcd with many divisors")
+        # largest divisor of c that divides x: nested ite, larger divisors outermost
+        r = z3.IntVal(1)
+        for d in sorted(divs):
+            if d != 1:
+                r = z3.If(x % d == 0, z3.IntVal(d), r)
+        return SymInt(r)
+
+    def loud(name, f):
+        def g(*a, **k):
+            if any(isinstance(x, SymInt) for x in a):
+                raise Unsupported(f"math.{name} of symbolic int")
+            return f(*a, **k)
+        return g
+
+    math.gcd = gcd
+    for nm in ("lcm", "isqrt", "comb", "perm", "factorial"):
+        setattr(math, nm, loud(nm, getattr(math, nm)))
+    math._verif_guarded = True
+
+
 def pin_model(model):
     """assume every variable of a stored model equal to its value (concrete replay through the same code)."""
     sorts = model.get("__sorts__", {})
@@ -604,6 +785,8 @@ def sym(name, lo=None, hi=None):
         eng().assume(v >= lo)
     if hi is not None:
         eng().assume(v <= hi)
+    if getattr(ENG, "concrete", False):
+        return ConcInt(ENG.model.eval(v, model_completion=True).as_long())
     return SymInt(v)
 
 
